@@ -313,6 +313,35 @@ def solution_coop(V):
         sols.append(pp_solution(i + 1, model, vtype, costs[V.choice(f"cost{i}", 2)]))
     check_solution(V, sols, fields(V, "", "config", "fixed"))
 
+
+@obligation("C13", "solution.cooperative.document-pairing", functions=F + ["commonroad/common/solution.py:CommonRoadSolutionWriter._serialize_solution",
+                                                                          "commonroad/common/solution.py:CommonRoadSolutionReader._parse_solution"],
+            max_paths={"quick": 4000, "thorough": 4000},
+            bounds="two planning problems of the same vehicle model (every model), different vehicle types and (where the model admits two) different "
+                   "cost functions, planning-problem ids ascending or descending: the written document read back pairs every planning problem with "
+                   "the vehicle and cost ids the benchmark id lists for it")
+def solution_document_pairing(V):
+    warnings.filterwarnings("ignore")
+    models, types = list(VehicleModel), list(VehicleType)
+    model = models[V.choice("model", len(models))]
+    costs = SupportedCostFunctions[model.name].value
+    ids = [(1, 2), (7, 2)][V.choice("ids_descending", 2)]
+    sols = [pp_solution(ids[0], model, types[V.choice("type0", 2)], costs[0]), pp_solution(ids[1], model, types[2 + V.choice("type1", 2)], costs[-1])]
+    s = Solution(make_id(fields(V, "", "config", "fixed")), sols)
+    real = ScenarioID.benchmark_id_pattern
+    if V.symbolic:
+        ScenarioID.benchmark_id_pattern = _Pattern(real)
+    try:
+        back = CommonRoadSolutionReader._parse_solution(sol.CommonRoadSolutionWriter(s)._solution_root)
+    finally:
+        ScenarioID.benchmark_id_pattern = real
+    V.prove("the scenario id reads back", bool(back.scenario_id == s.scenario_id))
+    expected = {p.planning_problem_id: (p.vehicle_model, p.vehicle_type, p.cost_function, p.trajectory_type) for p in sols}
+    got = {p.planning_problem_id: (p.vehicle_model, p.vehicle_type, p.cost_function, p.trajectory_type) for p in back.planning_problem_solutions}
+    V.prove("every planning problem keeps its vehicle model, vehicle type, cost function and trajectory type", got == expected)
+    V.prove("the ids the benchmark id lists are in the order of the planning-problem solutions read back",
+            [(p.vehicle_id, p.cost_function.name) for p in back.planning_problem_solutions] == list(zip(back.vehicle_ids, back.cost_ids)))
+
 _SID = "commonroad.scenario.scenario:ScenarioID."
 MUTANTS = [
     dict(name="print-drops-map-id-separator", target=_SID + "__str__", old='f"{self.map_name}-{self.map_id}"', new='f"{self.map_name}{self.map_id}"',
